@@ -8,6 +8,8 @@ package main
 import (
 	"bytes"
 	"fmt"
+	"image"
+	"image/color"
 	"math"
 	"runtime"
 	"sort"
@@ -20,10 +22,16 @@ import (
 	"github.com/EliCDavis/polyform/math/geometry"
 	"github.com/EliCDavis/polyform/math/quaternion"
 	"github.com/EliCDavis/polyform/math/trs"
+	"github.com/EliCDavis/iter"
 	"github.com/EliCDavis/polyform/modeling"
+	"github.com/EliCDavis/polyform/modeling/marching"
 	"github.com/EliCDavis/polyform/modeling/meshops"
+	"github.com/EliCDavis/polyform/modeling/meshops/gausops"
+	"github.com/EliCDavis/polyform/modeling/pipeline"
 	"github.com/EliCDavis/polyform/modeling/primitives"
 	"github.com/EliCDavis/polyform/modeling/repeat"
+	"github.com/EliCDavis/polyform/modeling/simplify"
+	"github.com/EliCDavis/polyform/modeling/voxelize"
 	"github.com/EliCDavis/vector/vector2"
 	"github.com/EliCDavis/vector/vector3"
 	"github.com/EliCDavis/vector/vector4"
@@ -47,6 +55,7 @@ type Op struct {
 	N     int                    `json:"n,omitempty"`   // weld decimals / smoothing iterations / worker pool size
 	TRS   [][]float64            `json:"trs,omitempty"` // repeat: tx,ty,tz,sx,sy,sz per transform
 	Maps  map[string][][]float64 `json:"maps,omitempty"`
+	All   []map[string][][]float64 `json:"all,omitempty"` // build: attribute maps of the kinds 1..4 (index kind-1)
 	Via   bool                   `json:"via,omitempty"` // through Mesh.Transform(<the meshops transformer>)
 	Nil   bool                   `json:"nil,omitempty"` // an empty Idx / Data / Mats is handed over as a nil slice
 }
@@ -179,7 +188,9 @@ func zvec(v []float64, k int) string {
 	return cellCoq(c) + "%Z"
 }
 
-var exportFmts = []string{"ply-ascii", "ply-binary", "obj", "stl", "gltf", "obj-mtl", "obj-named", "gltf-text"}
+var exportFmts = []string{"ply-ascii", "ply-binary", "obj", "stl", "gltf", "obj-mtl", "obj-named", "gltf-text",
+	// read-only queries of the modeling API (round 4): they hand back no mesh, the pool is re-read afterwards
+	"bbox", "octree", "neighbors", "prims", "queries", "voxelize", "iterators", "march-field", "scanpar"}
 
 func fmtNo(f string) int {
 	for i, s := range exportFmts {
@@ -197,8 +208,8 @@ var exportErrors int
 // implementation showed it; coq: the step as a Check.C01 op (what the model is asked to execute).
 func apply(op Op, pool []modeling.Mesh) (ms []modeling.Mesh, status string, coq string) {
 	bad := func(i int) bool { return i < 0 || i >= len(pool) }
-	needI := op.Op != "new" && op.Op != "empty" && op.Op != "cube"
-	if (needI && bad(op.I)) || ((op.Op == "append" || op.Op == "copyattr") && bad(op.J)) {
+	needI := op.Op != "new" && op.Op != "empty" && op.Op != "cube" && op.Op != "build"
+	if (needI && bad(op.I)) || ((op.Op == "append" || op.Op == "copyattr" || op.Op == "sharemats") && bad(op.J)) {
 		// not generated; a hand-written replay may do it: the model answers Declared for a missing member
 		return nil, "Declared", fmt.Sprintf("OExport 0%%nat %s", nat(len(pool)+1000))
 	}
@@ -337,6 +348,13 @@ func apply(op Op, pool []modeling.Mesh) (ms []modeling.Mesh, status string, coq 
 			}
 			return one(m.SetMaterials(s))
 		})
+	case "sharemats":
+		// the slice Materials() hands out is the mesh's own: the result shares pool[J]'s material array
+		coq = fmt.Sprintf("OShareMats %s %s", I, nat(op.J))
+		src := pool[op.J]
+		ms, status = protect(func() []modeling.Mesh { return one(m.SetMaterials(src.Materials())) })
+	case "build":
+		return applyBuild(op)
 	case "clear":
 		coq = fmt.Sprintf("OClearAttrs %s", I)
 		ms, status = protect(func() []modeling.Mesh { return one(m.ClearAttributeData()) })
@@ -408,6 +426,8 @@ func apply(op Op, pool []modeling.Mesh) (ms []modeling.Mesh, status string, coq 
 			case "gltf-text":
 				mm := m
 				err = gltf.WriteText(gltf.PolyformScene{Models: []gltf.PolyformModel{{Name: "m", Mesh: &mm}}}, &buf)
+			case "bbox", "octree", "neighbors", "prims", "queries", "voxelize", "iterators", "march-field", "scanpar":
+				readOnly(op.Fmt, m)
 			default:
 				mm := m
 				err = gltf.WriteBinary(gltf.PolyformScene{Models: []gltf.PolyformModel{{Name: "m", Mesh: &mm}}}, &buf)
@@ -441,6 +461,16 @@ func apply(op Op, pool []modeling.Mesh) (ms []modeling.Mesh, status string, coq 
 				return one(m.ScanPrimitives(func(int, modeling.Primitive) {}))
 			case "colorspace-skip":
 				return one(m.Transform(meshops.VertexColorSpaceTransformer{Attribute: op.Name, SkipOnMissingAttribute: true}))
+			case "scan1par":
+				return one(m.ScanFloat1AttributeParallelWithPoolSize(op.Name, 2, func(int, float64) {}))
+			case "scanprimspar":
+				return one(m.ScanPrimitivesParallelWithPoolSize(3, func(int, modeling.Primitive) {}))
+			case "pipeline0":
+				return one(pipeline.Pipeline{}.Run(m))
+			case "decimate":
+				return one(simplify.QuadricDecimation(m))
+			case "custom":
+				return one(m.Transform(meshops.CustomTransformer{Func: func(x modeling.Mesh) (modeling.Mesh, error) { return x, nil }}))
 			}
 			return one(m.Transform())
 		})
@@ -493,6 +523,18 @@ func apply(op Op, pool []modeling.Mesh) (ms []modeling.Mesh, status string, coq 
 		}
 		coq = fmt.Sprintf("OMulti %s (Some %d%%N) [] [(%s,None);(%s,None)]", I, attrID(op.Name), cellsCoq(intCells(above)), cellsCoq(intCells(below)))
 		plane := geometry.NewPlaneFromPoints(vector3.New(c, 0, 0), vector3.New(c, 1, 0), vector3.New(c, 0, 1))
+		if op.Via {
+			// SliceByPlaneTransformer builds both halves and hands back one of them
+			side, kept := meshops.AbovePlane, above
+			if op.N == 1 {
+				side, kept = meshops.BelowPlane, below
+			}
+			coq = fmt.Sprintf("OMulti %s (Some %d%%N) [] [(%s,None)]", I, attrID(op.Name), cellsCoq(intCells(kept)))
+			ms, status = protect(func() []modeling.Mesh {
+				return one(m.Transform(meshops.SliceByPlaneTransformer{Attribute: op.Name, SliceToKeep: side, Plane: plane}))
+			})
+			break
+		}
 		ms, status = protect(func() []modeling.Mesh {
 			a, b := meshops.SliceByPlaneWithAttribute(m, plane, op.Name)
 			return []modeling.Mesh{a, b}
@@ -626,11 +668,18 @@ func applyMap(op Op, m modeling.Mesh) (ms []modeling.Mesh, status string, coq st
 	case "mo.scale2":
 		k, fn = 2, "FMul "+zvec(op.Vec, 2)
 		run = func() modeling.Mesh {
+			if op.Via {
+				return m.Transform(meshops.ScaleAttribute2DTransformer{Attribute: op.Name, Amount: v2of(op.Vec)})
+			}
 			return meshops.ScaleAttribute2D(m, op.Name, vector2.Zero[float64](), v2of(op.Vec))
 		}
 	case "mo.rotate":
 		run = func() modeling.Mesh {
-			return meshops.RotateAttribute3D(m, op.Name, quaternion.FromTheta(math.Pi/2, vector3.Right[float64]()))
+			q := quaternion.FromTheta(math.Pi/2, vector3.Right[float64]())
+			if op.Via {
+				return m.Transform(meshops.RotateAttribute3DTransformer{Attribute: op.Name, Amount: q})
+			}
+			return meshops.RotateAttribute3D(m, op.Name, q)
 		}
 	case "mo.center":
 		run = func() modeling.Mesh {
@@ -640,16 +689,32 @@ func applyMap(op Op, m modeling.Mesh) (ms []modeling.Mesh, status string, coq st
 			return meshops.CenterFloat3Attribute(m, op.Name)
 		}
 	case "mo.normalize3":
-		run = func() modeling.Mesh { return meshops.NormalizeAttribute3D(m, op.Name) }
+		run = func() modeling.Mesh {
+			if op.Via {
+				return m.Transform(meshops.NormalizeAttribute3DTransformer{Attribute: op.Name})
+			}
+			return meshops.NormalizeAttribute3D(m, op.Name)
+		}
 	case "mo.normalize2":
 		k = 2
-		run = func() modeling.Mesh { return meshops.NormalizeAttribute2D(m, op.Name) }
+		run = func() modeling.Mesh {
+			if op.Via {
+				return m.Transform(meshops.NormalizeAttribute2DTransformer{Attribute: op.Name})
+			}
+			return meshops.NormalizeAttribute2D(m, op.Name)
+		}
 	case "mo.colorspace":
 		run = func() modeling.Mesh {
+			if op.Via {
+				return m.Transform(meshops.VertexColorSpaceTransformer{Attribute: op.Name, Transformation: meshops.VertexColorSpaceSRGBToLinear})
+			}
 			return meshops.VertexColorSpace(m, op.Name, meshops.VertexColorSpaceSRGBToLinear)
 		}
 	case "mo.alongnormal":
 		run = func() modeling.Mesh {
+			if op.Via {
+				return m.Transform(meshops.ScaleAttributeAlongNormalTransformer{AttributeToScale: op.Name, NormalAttribute: modeling.NormalAttribute, Amount: at(op.Vec, 0)})
+			}
 			return meshops.ScaleAttributeAlongNormal(m, op.Name, modeling.NormalAttribute, at(op.Vec, 0))
 		}
 	case "mo.flatnormals":
@@ -672,7 +737,54 @@ func applyMap(op Op, m modeling.Mesh) (ms []modeling.Mesh, status string, coq st
 		// generated only for triangle meshes with valid indices (Crash otherwise) and for point/quad meshes
 		// (VertexNeighborTable declares them unsupported)
 		req, tris = []int{0}, true
-		run = func() modeling.Mesh { return meshops.LaplacianSmooth(m, op.Name, op.N, 0.5) }
+		run = func() modeling.Mesh {
+			if op.Via {
+				return m.Transform(meshops.LaplacianSmoothTransformer{Attribute: op.Name, Iterations: op.N, SmoothingFactor: 0.5})
+			}
+			return meshops.LaplacianSmooth(m, op.Name, op.N, 0.5)
+		}
+	case "mo.laplacian-axis":
+		req, tris = []int{0}, true
+		run = func() modeling.Mesh { return meshops.LaplacianSmoothAlongAxis(m, op.Name, op.N, 0.5, vector3.Up[float64]()) }
+	case "mo.smoothnormals-weld":
+		src, dst, req, tris = pos, modeling.NormalAttribute, []int{0}, true
+		run = func() modeling.Mesh {
+			if op.Via {
+				return m.Transform(meshops.SmoothNormalsImplicitWeldTransformer{Distance: at(op.Vec, 0)})
+			}
+			return meshops.SmoothNormalsImplicitWeld(m, at(op.Vec, 0))
+		}
+	case "mo.colorlut":
+		run = func() modeling.Mesh {
+			if op.Via {
+				return m.Transform(meshops.ColorGradingLutTransformer{Attribute: op.Name, LUT: testLUT()})
+			}
+			return meshops.ColorGradingLut(m, testLUT(), op.Name)
+		}
+	case "gaus.colorlut":
+		run = func() modeling.Mesh { return gausops.ColorGradingLut(m, testLUT(), op.Name) }
+	case "gaus.scale":
+		// (reads and writes modeling.ScaleAttribute whatever attribute it is given)
+		src, dst = modeling.ScaleAttribute, modeling.ScaleAttribute
+		run = func() modeling.Mesh { return gausops.Scale(m, modeling.ScaleAttribute, v3of(op.Vec)) }
+	case "gaus.rotate":
+		k = 4
+		run = func() modeling.Mesh {
+			return gausops.RotateAttribute(m, op.Name, quaternion.FromTheta(math.Pi/2, vector3.Up[float64]()))
+		}
+	case "modify.par":
+		// the variants that size their worker pool by runtime.NumCPU()
+		k = op.K
+		run = func() modeling.Mesh {
+			switch k {
+			case 1:
+				return m.ModifyFloat1AttributeParallel(op.Name, func(i int, v float64) float64 { return v + at(op.Vec, 0) })
+			case 2:
+				return m.ModifyFloat2AttributeParallel(op.Name, func(i int, v vector2.Float64) vector2.Float64 { return v.Add(v2of(op.Vec)) })
+			}
+			return m.ModifyFloat3AttributeParallel(op.Name, func(i int, v vector3.Float64) vector3.Float64 { return v.Add(v3of(op.Vec)) })
+		}
+		fn = "FAdd " + zvec(op.Vec, k)
 	default:
 		panic("unknown map fn " + op.Fn)
 	}
@@ -851,4 +963,361 @@ func weldExpect(pos [][3]float64, idx []int, dec int) (newidx []int, keep []int)
 		newidx[i] -= shift[newidx[i]]
 	}
 	return
+}
+
+// ---- round 4: constructors that assemble a mesh from caller / generator data (OBuild) ------------------------------
+
+var lutImage image.Image
+
+// a 256x16 colour grading table (16 cells of 16x16): any image will do, the transformer only reads it
+func testLUT() image.Image {
+	if lutImage == nil {
+		img := image.NewRGBA(image.Rect(0, 0, 256, 16))
+		for x := 0; x < 256; x++ {
+			for y := 0; y < 16; y++ {
+				img.Set(x, y, color.RGBA{uint8(x), uint8(16 * y), uint8(255 - x), 255})
+			}
+		}
+		lutImage = img
+	}
+	return lutImage
+}
+
+func sortedNames(m map[string][][]float64) []string {
+	names := make([]string, 0, len(m))
+	for n := range m {
+		names = append(names, n)
+	}
+	sort.Strings(names)
+	return names
+}
+
+func buildCoq(topo int, idx []cell, mats []cell, v [5][]attrObs) string {
+	var b strings.Builder
+	fmt.Fprintf(&b, "OBuild %s %s %s", topoCoq[topo], cellsCoq(idx), cellsCoq(mats))
+	for k := 1; k <= 4; k++ {
+		b.WriteString(" [")
+		for i, a := range v[k] {
+			if i > 0 {
+				b.WriteByte(';')
+			}
+			fmt.Fprintf(&b, "(%d%%N,%s)", a.id, cellsCoq(a.vals))
+		}
+		b.WriteString("]")
+	}
+	return b.String()
+}
+
+func matsOf(op Op) ([]modeling.MeshMaterial, []cell) {
+	if op.Nil && len(op.Mats) == 0 {
+		return nil, nil
+	}
+	byID := map[int]*modeling.Material{}
+	s := make([]modeling.MeshMaterial, len(op.Mats), len(op.Mats)+op.Spare)
+	cs := make([]cell, len(op.Mats))
+	for i, e := range op.Mats {
+		if _, ok := byID[e[1]]; !ok {
+			byID[e[1]] = material(e[1])
+		}
+		s[i] = modeling.MeshMaterial{PrimitiveCount: e[0], Material: byID[e[1]]}
+		id := e[1]
+		if id < 0 {
+			id = -1
+		}
+		cs[i] = cell{fmt.Sprintf("%d", e[0]), fmt.Sprintf("%d", id)}
+	}
+	return s, cs
+}
+
+func applyBuild(op Op) (ms []modeling.Mesh, status string, coq string) {
+	all := func(k int) map[string][][]float64 {
+		if k-1 < len(op.All) && op.All[k-1] != nil {
+			return op.All[k-1]
+		}
+		return map[string][][]float64{}
+	}
+	switch op.Fn {
+	case "pointcloud", "linestrip":
+		// expected result, computed from the inputs: arrays without elements are dropped, the indices are 0..n-1 for the
+		// common length n (the generator keeps the lengths uniform), the caller's material slice is stored
+		topo := 1
+		if op.Fn == "linestrip" {
+			topo = 4
+		}
+		var v [5][]attrObs
+		n := 0
+		for k := 1; k <= 4; k++ {
+			if op.Fn == "linestrip" && k == 4 {
+				continue
+			}
+			for _, nm := range sortedNames(all(k)) {
+				rows := rowsK(all(k)[nm], k)
+				if len(rows) == 0 {
+					continue
+				}
+				n = len(rows)
+				v[k] = append(v[k], attrObs{id: attrID(nm), name: nm, vals: rowCells(rows)})
+			}
+		}
+		idx := make([]int, n)
+		for i := range idx {
+			idx[i] = i
+		}
+		mats, matCells := matsOf(op)
+		coq = buildCoq(topo, intCells(idx), matCells, v)
+		if op.Fn == "linestrip" && n == 1 {
+			coq = fmt.Sprintf("OExport 0%%nat %s", nat(100000)) // declared: "invalid attribute count for line strip mesh"
+		}
+		ms, status = protect(func() []modeling.Mesh {
+			d1 := map[string][]float64{}
+			for nm, rows := range all(1) {
+				d1[nm] = mkV1(rows, op.Spare)
+			}
+			d2 := map[string][]vector2.Float64{}
+			for nm, rows := range all(2) {
+				d2[nm] = mkV2(rows, op.Spare)
+			}
+			d3 := map[string][]vector3.Float64{}
+			for nm, rows := range all(3) {
+				d3[nm] = mkV3(rows, op.Spare)
+			}
+			d4 := map[string][]vector4.Float64{}
+			for nm, rows := range all(4) {
+				d4[nm] = mkV4(rows, op.Spare)
+			}
+			if op.Fn == "linestrip" {
+				return one(modeling.NewLineStripMesh(d3, d2, d1, mats))
+			}
+			return one(modeling.NewPointCloud(d4, d3, d2, d1, mats))
+		})
+		return
+	}
+	// generator functions: the content of the new arrays is taken from the implementation (C01 is about sharing)
+	a, b, c := at(op.Vec, 0), at(op.Vec, 1), at(op.Vec, 2)
+	var strip *primitives.StripUVs
+	var circ *primitives.CircleUVs
+	if op.Via { // with UVs
+		strip = &primitives.StripUVs{Start: vector2.New(0., 0.5), End: vector2.New(1., 0.5), Width: 1}
+		circ = &primitives.CircleUVs{Center: vector2.New(0.5, 0.5), Radius: 0.5}
+	}
+	ms, status = protect(func() []modeling.Mesh {
+		switch op.Fn {
+		case "quad":
+			return one(primitives.Quad{Width: a, Depth: b, UVs: strip}.ToMesh())
+		case "circle":
+			return one(primitives.Circle{Sides: op.N, Radius: a, UVs: circ}.ToMesh())
+		case "cone":
+			return one(primitives.Cone{Height: a, Radius: b, Sides: op.N}.ToMesh())
+		case "cylinder":
+			var uvs *primitives.CylinderUVs
+			if op.Via {
+				uvs = &primitives.CylinderUVs{Top: circ, Bottom: circ, Side: strip}
+			}
+			return one(primitives.Cylinder{Sides: op.N, Height: a, Radius: b, NoTop: c > 0, NoBottom: c > 1, UVs: uvs}.ToMesh())
+		case "sphere":
+			return one(primitives.UVSphere(a, 2, op.N))
+		case "sphere-unwelded":
+			return one(primitives.UVSphereUnwelded(a, 2, op.N))
+		case "hemisphere":
+			return one(primitives.Hemisphere{Radius: a, Capped: b > 0}.UV(2, op.N))
+		case "cubequads":
+			var uvs *primitives.CubeUVs
+			if op.Via {
+				uvs = primitives.DefaultCubeUVs()
+			}
+			return one(primitives.Cube{Width: a, Height: b, Depth: c, UVs: uvs}.UnweldedQuads())
+		}
+		panic(fmt.Errorf("unknown build fn %s", op.Fn))
+	})
+	if status != "Ok" {
+		coq = fmt.Sprintf("OExport 0%%nat %s", nat(100000)) // a rejected parameter: no mesh, the model answers Declared
+		if status == "Crash" {
+			coq = "OFlip 100000%nat" // (not generated)
+		}
+		return
+	}
+	o := observe(ms[0])
+	coq = buildCoq(o.topo, o.idx, o.mats, o.v)
+	return
+}
+
+// ---- round 4: queries of the modeling API that hand back no mesh ----------------------------------------------------
+
+func readOnly(what string, m modeling.Mesh) {
+	names3 := m.Float3Attributes()
+	try := func(f func()) {
+		defer func() { recover() }() // a query that rejects the mesh (topology, missing attribute) is not C01's business
+		f()
+	}
+	switch what {
+	case "bbox":
+		for _, n := range names3 {
+			n := n
+			try(func() { m.BoundingBox(n) })
+		}
+	case "octree":
+		try(func() { m.OctTree() })
+		for _, n := range names3 {
+			n := n
+			try(func() { m.OctTreeWithAttributeAndDepth(n, 2).ClosestPoint(vector3.New(1., 2., 3.)) })
+		}
+		try(func() { m.OctTreeDepth(1) })
+	case "neighbors":
+		try(func() {
+			t := m.VertexNeighborTable()
+			for v := 0; v < m.AttributeLength(); v++ {
+				_ = t.Count(v)
+				for range t.Lookup(v) {
+				}
+			}
+			// the table is the caller's: editing it must not reach the mesh
+			if m.Indices().Len() > 1 {
+				t.RemoveVertex(m.Indices().At(0))
+			}
+		})
+	case "prims":
+		pt := vector3.New(1., 2., 3.)
+		for _, n := range names3 {
+			n := n
+			try(func() {
+				m.ScanPrimitives(func(i int, p modeling.Primitive) {
+					p.BoundingBox(n)
+					p.ClosestPoint(n, pt)
+					sc := p.Scope(n)
+					sc.BoundingBox()
+					sc.ClosestPoint(pt)
+				})
+			})
+		}
+		try(func() { m.ScanPrimitivesParallel(func(i int, p modeling.Primitive) {}) })
+		if m.Topology() == modeling.TriangleTopology {
+			for i := 0; i < m.Indices().Len()/3; i++ {
+				i := i
+				try(func() {
+					t := m.Tri(i)
+					_, _, _ = t.P1(), t.P2(), t.P3()
+					t.UniqueVertices()
+					for _, n := range names3 {
+						t.P1Vec3Attr(n)
+						t.P2Vec3Attr(n)
+						t.P3Vec3Attr(n)
+						t.L1(n)
+						t.L2(n)
+						t.L3(n)
+						t.Plane(n)
+						t.Average(n)
+						t.Area3D(n)
+						t.BoundingBox(n)
+						t.ClosestPoint(n, pt)
+					}
+					for _, n := range m.Float2Attributes() {
+						t.P1Vec2Attr(n)
+						t.P2Vec2Attr(n)
+						t.P3Vec2Attr(n)
+					}
+					for _, n := range m.Float1Attributes() {
+						t.P1Vec1Attr(n)
+						t.P2Vec1Attr(n)
+						t.P3Vec1Attr(n)
+					}
+					t.Bounds()
+					t.PointInSide(pt)
+					t.RayIntersects(geometry.NewRay(pt, vector3.Down[float64]()))
+					t.LineIntersects(geometry.NewLine3D(pt, vector3.New(-1., -2., -3.)))
+				})
+			}
+		}
+		if m.Topology() == modeling.LineStripTopology {
+			for i := 0; i+1 < m.Indices().Len(); i++ {
+				i := i
+				try(func() { l := m.LineStrip(i); _, _ = l.P1(), l.P2() })
+			}
+		}
+	case "queries":
+		try(func() { m.PrimitiveCount() })
+		m.AttributeLength()
+		for _, n := range attrNames {
+			m.HasVertexAttribute(n)
+			m.HasFloat1Attribute(n)
+			m.HasFloat2Attribute(n)
+			m.HasFloat3Attribute(n)
+			m.HasFloat4Attribute(n)
+		}
+		for _, mm := range m.Materials() {
+			_ = mm.PrimitiveCount
+		}
+		m.Topology().IndexSize()
+	case "voxelize":
+		for _, n := range names3 {
+			n := n
+			if ext, ok := extent(m, n); ok {
+				size := math.Max(1, ext/6)
+				try(func() { voxelize.Vertices(m, n, size) })
+				if m.Topology() == modeling.TriangleTopology && m.Indices().Len()%3 == 0 {
+					try(func() { voxelize.Surface(m, n, size) })
+				}
+			}
+		}
+	case "iterators":
+		ix := m.Indices()
+		for {
+			if _, err := ix.Next(); err != nil {
+				break
+			}
+		}
+		ix.Reset()
+		if ix.Len() > 0 {
+			ix.Current()
+		}
+		iter.ReadFull[int](ix)
+		for _, n := range names3 {
+			iter.ReadFull[vector3.Float64](m.Float3Attribute(n))
+		}
+		for _, n := range m.Float1Attributes() {
+			it := m.Float1Attribute(n)
+			iter.Sum[float64](it)
+			it.Reset()
+			if it.Len() > 0 {
+				iter.Max[float64](it)
+			}
+		}
+	case "march-field":
+		try(func() {
+			f := marching.Mesh(m, 1, 1)
+			fn := f.Float1Functions[modeling.PositionAttribute]
+			fn(vector3.New(0., 0., 0.))
+			fn(vector3.New(1., 2., 3.))
+		})
+	case "scanpar":
+		for _, n := range names3 {
+			n := n
+			try(func() { m.ScanFloat3AttributeParallel(n, func(int, vector3.Float64) {}) })
+		}
+		for _, n := range m.Float2Attributes() {
+			n := n
+			try(func() { m.ScanFloat2AttributeParallel(n, func(int, vector2.Float64) {}) })
+		}
+		for _, n := range m.Float1Attributes() {
+			n := n
+			try(func() { m.ScanFloat1AttributeParallel(n, func(int, float64) {}) })
+		}
+	}
+}
+
+// extent of the values of a float3 attribute, when all of them are finite and moderate
+func extent(m modeling.Mesh, name string) (float64, bool) {
+	rows := attrRows3(m, name)
+	if len(rows) == 0 {
+		return 0, false
+	}
+	lo, hi := math.Inf(1), math.Inf(-1)
+	for _, r := range rows {
+		for _, x := range r {
+			if math.IsNaN(x) || math.Abs(x) > 1e6 {
+				return 0, false
+			}
+			lo, hi = math.Min(lo, x), math.Max(hi, x)
+		}
+	}
+	return hi - lo, true
 }
